@@ -33,8 +33,11 @@ Strips(ss) == [i \in DOMAIN ss |-> Strip(ss[i])]
 RemoveAtIdx(s, i) == SubSeq(s, 1, i - 1) \o SubSeq(s, i + 1, Len(s))
 
 \* ---- C14 ------------------------------------------------------------------
-AddLocalRet(E, f)    == IF f = 1 THEN E.p1 + Len(E.l1) ELSE E.p2 + Len(E.l2)
-AddLocal(E, f, ty)   == IF f = 1 THEN [E EXCEPT !.l1 = Append(@, TyStr(ty))] ELSE [E EXCEPT !.l2 = Append(@, TyStr(ty))]
+\* f = 0: the function that replaced an import before the program started (p0 parameters, locals l0)
+AddLocalRet(E, f)    == CASE f = 0 -> E.p0 + Len(E.l0) [] f = 1 -> E.p1 + Len(E.l1) [] OTHER -> E.p2 + Len(E.l2)
+AddLocal(E, f, ty)   == CASE f = 0 -> [E EXCEPT !.l0 = Append(@, TyStr(ty))]
+                          [] f = 1 -> [E EXCEPT !.l1 = Append(@, TyStr(ty))]
+                          [] OTHER -> [E EXCEPT !.l2 = Append(@, TyStr(ty))]
 \* FunctionModifier::add_locals(&[ty, ty, other]): three fresh locals in request order (the harness reports the first index)
 OtherTy(ty) == IF ty = "i64" THEN "f32" ELSE "i64"
 AddLocals3(E, f, ty) == AddLocal(AddLocal(AddLocal(E, f, ty), f, ty), f, OtherTy(ty))
